@@ -49,3 +49,103 @@ PLAN["C16"] = dict(
         dict(test="TestC16ParseRapid", checks=300000, shards=5, counts=["C16.parse"]),
     ],
 )
+
+_DIFF_NOTE = ("Differential oracle: the code under test is compared with itself under a different schedule / continuation, so a "
+              "disagreement is a violation by definition; what is compared is exactly what a caller can read back "
+              "(verdict, offset, predicates, every exported field, accessor results); empty fields carry no position; on an "
+              "error verdict only completed elements are compared.")
+
+PLAN["C01"] = dict(
+    technique="differential PBT (rapid): resumed vs one-shot per step, generated messages x flags x capacities x chunk schedules; exhaustive cuts over a corpus and a small-scope enumeration",
+    level_text=("Exploration: generated messages (grammar 55% / mutated 35% / raw 10%) under generated flags, capacities, start "
+                "offsets and chunk schedules; at every step the resumed call must return the verdict and offset of a fresh one-shot "
+                "parse of the same prefix, and at the definitive verdict the complete snapshot must be equal. Exhaustive over all "
+                "single cuts + every-byte schedule for a 19-message corpus and over every string of a small delimiter alphabet "
+                "behind a message skeleton (all 2^(n-1) schedules for short strings)."),
+    level_note=_DIFF_NOTE,
+    rule=("case = (message bytes, flags 0..3 + optional no-more-data on the last call, header/contact capacities, junk prefix, "
+          "schedule); non-trivial = at least one suspension happened inside the first line or the headers and a definitive verdict "
+          "was reached (scope/corpus cases: at least one schedule suspended and the full input is definitive); distinct = "
+          "different canonical case JSON (hash) / enumerated strings are distinct by construction"),
+    quick=[
+        dict(kind="enum", test="TestC01Scope|TestC01Corpus", solo=True, timeout=900),
+        dict(test="TestC01Rapid", checks=6000, shards=8, counts=["C01.msg"]),
+    ],
+    thorough=[
+        dict(kind="enum", test="TestC01Scope|TestC01Corpus", solo=True, timeout=3000, env={"VERIF_DEPTH": 1}),
+        dict(test="TestC01Rapid", checks=60000, shards=16, counts=["C01.msg"], timeout=3000),
+    ],
+)
+
+PLAN["C02"] = dict(
+    technique="differential PBT (rapid) over 19 parser wrappers + exhaustive small-scope enumeration (every string over each parser's delimiter alphabet x every chunk schedule)",
+    level_text=("Exploration: each exported streaming parser (first line, header line with/without typed values, header block, "
+                "name-addr for From/To/Contact/Route/PAI kinds, one/all Contact, one/all PAI, CSeq, Call-ID, uint/CLen/Expires, "
+                "token param under generated option flags, URI param list, URI header list, quoted-string skipper) is driven "
+                "with generated fragments (grammar/mutated/raw), start offsets, capacities and schedules and compared with a "
+                "fresh one-shot call at every step. Exhaustive inside ~50 enumerated scopes (alphabet, bound listed in the "
+                "evidence): all strings x all schedules (<= 6 bytes: all 2^(n-1); longer: every-byte, all single cuts, steps 2/3/5)."),
+    level_note=_DIFF_NOTE,
+    rule=("case = (parser kind + flags + capacities, junk prefix, fragment bytes, schedule); non-trivial = at least one "
+          "suspension before a definitive verdict; distinct by case hash; enumerated strings distinct by construction"),
+    quick=[
+        dict(kind="enum", test="TestC02Scope", solo=True, timeout=900),
+        dict(test="TestC02Rapid", checks=8000, shards=8, counts=["C02.sub"]),
+    ],
+    thorough=[
+        dict(kind="enum", test="TestC02Scope", solo=True, timeout=3000, env={"VERIF_DEPTH": 1}),
+        dict(test="TestC02Rapid", checks=100000, shards=16, counts=["C02.sub"], timeout=3000),
+    ],
+)
+
+PLAN["C03"] = dict(
+    technique="metamorphic PBT: one-shot verdict at every prefix vs every extension (natural continuation + hostile suffixes); exhaustive over small-scope strings",
+    level_text=("Exploration: for a generated input the one-shot verdict of every prefix is computed; from the first definitive "
+                "prefix on, every longer prefix and every (prefix within 4 bytes of the boundary) + (suffix from a hostile set: "
+                "SP HT CR LF CRLF fold digit quote ; , letter random) must give the same verdict, offset and values. All 20 "
+                "parser kinds incl. the message parser; end-of-input modes are not generated (exempt); a message without "
+                "Content-Length in rest-of-buffer mode is compared without the body extent (exempt). Exhaustive for the "
+                "natural-continuation clause inside the enumerated scopes."),
+    level_note=_DIFF_NOTE,
+    rule=("case = (parser kind + flags + capacities, junk prefix, input, suffix list); non-trivial = a definitive verdict is "
+          "reached before the end of the input or a suffix starting with SP/HT/CR/LF/digit/quote was tested at the boundary; "
+          "distinct by case hash; enumerated strings distinct by construction"),
+    quick=[
+        dict(kind="enum", test="TestC03Scope", solo=True, timeout=900),
+        dict(test="TestC03Rapid", checks=4000, shards=8, counts=["C03.prem"]),
+    ],
+    thorough=[
+        dict(kind="enum", test="TestC03Scope", solo=True, timeout=3000, env={"VERIF_DEPTH": 1}),
+        dict(test="TestC03Rapid", checks=40000, shards=16, counts=["C03.prem"], timeout=3000),
+    ],
+)
+
+PLAN["C04"] = dict(
+    technique="robustness PBT/fuzzing: recover+offset+dereference oracle on arbitrary bytes for all exported functions; interleaved and concurrent (-race) runs vs solo runs; exhaustive lookups/IPv6/small scopes",
+    level_text=("Exploration: every streaming parser on grammar/mutated/raw bytes at any start offset, flags (all 256 option sets "
+                "sampled, 8 message flag sets), capacities incl. none and zero-value objects, any schedule: no panic, returned "
+                "offset inside the buffer and not before the start unless an error, every exported field and accessor result "
+                "dereferenceable after every call (success, error or suspension). All one-shot functions (URI parse/compare/"
+                "relocate/views, IPv4/IPv6 prefix/contains, signatures, lookups, String methods) on hostile strings. Isolation: "
+                "2..5 streams interleaved in a generated order and run concurrently under the race detector must equal their "
+                "solo runs. Exhaustive: both lookups on all names <= 3 bytes, IPv6 text <= 9 symbols over ':1f].x' (+'['), "
+                "offset/deref rules on every enumerated scope string. Non-termination is caught by a 30 s per-case watchdog."),
+    level_note="Trusted: Go runtime bounds checks turn out-of-range access into panics; race detector for unsynchronised shared state; the 30 s watchdog bounds 'fails to return'.",
+    rule=("case = (parser kind/config, bytes, start offset, schedule) or (two strings, flags, numbers) or (k streams + "
+          "interleaving); non-trivial = the call consumed >= 8 bytes or returned a non-error verdict (isolation: >= 2 streams); "
+          "distinct by case hash; enumerated strings distinct by construction"),
+    quick=[
+        dict(kind="enum", test="TestC04Scope|TestC04Enum", solo=True, timeout=900),
+        dict(test="TestC04StreamRapid", checks=8000, shards=4, counts=["C04.stream"]),
+        dict(test="TestC04APIRapid", checks=8000, shards=3, counts=["C04.api"]),
+        dict(test="TestC04IsoRapid", checks=1500, shards=3, counts=["C04.iso"], race=True),
+        dict(test="TestC04IsoAPIRapid", checks=1500, shards=2, counts=["C04.isoapi"], race=True),
+    ],
+    thorough=[
+        dict(kind="enum", test="TestC04Scope|TestC04Enum", solo=True, timeout=3000, env={"VERIF_DEPTH": 1, "VERIF_C04_IP6LEN": 10}),
+        dict(test="TestC04StreamRapid", checks=100000, shards=6, counts=["C04.stream"], timeout=3000),
+        dict(test="TestC04APIRapid", checks=100000, shards=4, counts=["C04.api"], timeout=3000),
+        dict(test="TestC04IsoRapid", checks=15000, shards=4, counts=["C04.iso"], race=True, timeout=3000),
+        dict(test="TestC04IsoAPIRapid", checks=15000, shards=2, counts=["C04.isoapi"], race=True, timeout=3000),
+    ],
+)
